@@ -872,9 +872,6 @@ class Calendar(MutableTimeline[Event]):
         # Merge metadata
         merged_metadata = {**pattern.metadata, **metadata}
 
-        # Determine if all-day (duration == DAY means all-day)
-        is_all_day = pattern.duration_seconds == DAY
-
         # Get RRULE string with required "RRULE:" prefix for Google Calendar API
         rrule_str = f"RRULE:{pattern.to_rrule_string()}"
 
@@ -905,6 +902,12 @@ class Calendar(MutableTimeline[Event]):
             series_start_ts = int(series_start_dt_tz.timestamp())
 
         series_end_ts = series_start_ts + pattern.duration_seconds
+
+        # All-day only if each occurrence is a whole day of the calendar: one DAY
+        # long and starting at local midnight in the calendar's timezone
+        is_all_day = pattern.duration_seconds == DAY and _infer_is_all_day(
+            series_start_ts, series_end_ts, self._calendar_timezone
+        )
 
         # Convert start timestamp to datetime/date
         # For recurring events, use the pattern's tz so BYDAY is interpreted correctly
